@@ -161,6 +161,26 @@ class Ctx:
                 except subprocess.TimeoutExpired:
                     p.kill()
                     raise ToolError(f"harness engine {engine} timed out")
+                if p.returncode == 77:
+                    # the process under test was left with a thread blocked for good (recorded in the trace as data) and ended
+                    # itself after that case: the remaining cases run in a fresh process
+                    ncrash += 1
+                    lines = open(ptf).read().splitlines()
+                    ids = [json.loads(x)["id"] for x in lines if '"ev":"reset"' in x]
+                    shard_cases = [json.loads(x) for x in open(pcf) if x.strip()]
+                    done = next((i for i, c in enumerate(shard_cases) if ids and c["id"] == ids[-1]), len(shard_cases) - 1) + 1
+                    with open(ptf + ".acc", "a") as acc:
+                        acc.write("\n".join(lines) + "\n")
+                    rest = shard_cases[done:]
+                    if not rest or ncrash >= 12:
+                        # (a dozen deadlocks in one shard are evidence enough; each costs seconds to establish)
+                        open(ptf, "w").close()
+                        break
+                    with open(pcf, "w") as f:
+                        for c in rest:
+                            f.write(json.dumps(c, separators=(",", ":")) + "\n")
+                    p = spawn(pcf, ptf)
+                    continue
                 if p.returncode < 0 and crash_is_data and ncrash < 200:
                     # killed by a signal: attribute it to the case whose `reset` was written last, continue after it
                     ncrash += 1
